@@ -935,6 +935,63 @@ class _Inliner:
             return None
         it = st.items[0]
         g, recv = self._callee(it.context_expr, caller_cls, caller_self)
+        if g is not None and not g.decorator_list and not any(isinstance(n, (ast.Yield, ast.YieldFrom)) for n in ast.walk(g)) \
+                and (it.optional_vars is None or isinstance(it.optional_vars, ast.Name)):
+            # an ordinary helper that *returns* the context manager: `with` moves to each of its returns
+            #   with h(x) as f: BODY   +   def h(x): if c: return A; return B      ->      if c: with A as f: BODY  else: with B as f: BODY
+            # and `with nullcontext(v) as f: BODY` is BODY with f = v
+            try:
+                pre, body = self._instantiate(g, it.context_expr, recv)
+            except NotInlinable:
+                return None
+            if not body or not isinstance(body[-1], (ast.Return, ast.Raise)):
+                return None
+            okh = [True]
+
+            def as_with(ret):
+                e = ret.value
+                if e is None:
+                    okh[0] = False
+                    return [ret]
+                if isinstance(e, ast.Call) and (ast.unparse(e.func) in ('nullcontext', 'contextlib.nullcontext')) and len(e.args) <= 1 and not e.keywords:
+                    inner = e.args[0] if e.args else ast.Constant(None)
+                    if it.optional_vars is None:
+                        return copy.deepcopy(st.body)
+                    if _simple_arg(inner):
+                        return [_Rename({it.optional_vars.id: inner}, {}).visit(copy.deepcopy(b)) for b in st.body]
+                    return [ast.copy_location(ast.Assign([copy.deepcopy(it.optional_vars)], inner, lineno=ret.lineno), ret)] + copy.deepcopy(st.body)
+                return [ast.copy_location(ast.With([ast.withitem(e, copy.deepcopy(it.optional_vars))], copy.deepcopy(st.body), lineno=ret.lineno), ret)]
+
+            def rewrite(stmts, tail):
+                """returns are replaced; a non-returning path must not exist (checked above for the last statement)"""
+                out = []
+                for k_, s_ in enumerate(stmts):
+                    if isinstance(s_, ast.Return):
+                        out += as_with(s_)
+                        return out, True
+                    if isinstance(s_, ast.If):
+                        b1, t1 = rewrite(s_.body, False)
+                        b2, t2 = rewrite(s_.orelse, False)
+                        rest = stmts[k_ + 1:]
+                        if t1 and not t2 and not s_.orelse and rest:
+                            # `if c: return A` + rest  ->  if c: <A form> else: <rest form>
+                            r2, t3 = rewrite(rest, tail)
+                            s_.body, s_.orelse = b1, r2
+                            out.append(s_)
+                            return out, t3
+                        s_.body, s_.orelse = b1, b2
+                        out.append(s_)
+                        if t1 and t2:
+                            return out, True
+                        continue
+                    if any(isinstance(n, ast.Return) for n in ast.walk(s_)):
+                        okh[0] = False
+                    out.append(s_)
+                return out, False
+            new, term = rewrite(body, True)
+            if not okh[0] or not term:
+                return None
+            return pre + new
         if g is None or not any((isinstance(d, ast.Name) and d.id == 'contextmanager') or (isinstance(d, ast.Attribute) and d.attr == 'contextmanager')
                                 for d in g.decorator_list):
             return None
